@@ -33,6 +33,8 @@ pub enum UdpOp {
     Pause(u64),
     /// the server's next `send_to` toward target `t` fails once (ENOBUFS): that datagram is lost, nothing else may change
     ServerSendFault { t: usize },
+    /// a datagram that is *not* sent (its sequence number is used up): what is left of a script when one session is run alone
+    Skip,
 }
 
 #[derive(Clone, Debug, Serialize, Deserialize, PartialEq)]
@@ -172,6 +174,7 @@ async fn udp_app(ix: usize, ops: Vec<UdpOp>, targets: Vec<UdpTarget>, via_port: 
                 let port = targets[t].port;
                 world::with(|w| w.add_fault(world::FaultKind::UdpSendErr, port, rt::NODE_SERVER, 1));
             }
+            UdpOp::Skip => seq += 1,
             UdpOp::Send { t, size } => {
                 seq += 1;
                 let p = dgram_payload(ix, t, seq, 0, size);
@@ -716,6 +719,7 @@ pub fn execute_c09_udp(plan: &Plan) -> Outcome {
     let mut panics = all.panics.clone();
     let (mut sim_ns, mut polls, mut ev_count) = (all.sim_ns, all.polls, all.world.ev_count);
     let mut extra_cases = Vec::new();
+    let mut sessions_alone = 0u64;
     if let Some(e) = &all.result.startup_err {
         v.push(Violation::new("C09", format!("C09/udp-startup/{cell}"), e.clone()));
     } else {
@@ -734,6 +738,35 @@ pub fn execute_c09_udp(plan: &Plan) -> Outcome {
             extra_cases.push(alone.poll_hash ^ plan.seed ^ ix as u64);
             let a = app_summary(&up, &alone.result.obs, ix);
             let t = app_summary(&up, &all.result.obs, ix);
+            // ... and every session of the application (one local socket, one target) alone: a binding or association table
+            // that is keyed too coarsely lets one session of a socket swallow the next
+            let mut targets_of_app: Vec<usize> = up.apps[ix].iter().filter_map(|op| if let UdpOp::Send { t, .. } = op { Some(*t) } else { None }).collect();
+            targets_of_app.sort();
+            targets_of_app.dedup();
+            if targets_of_app.len() > 1 && a == t {
+                for tgt in targets_of_app {
+                    let mut one = single.clone();
+                    for op in one.apps[ix].iter_mut() {
+                        if matches!(op, UdpOp::Send { t, .. } if *t != tgt) {
+                            *op = UdpOp::Skip;
+                        }
+                    }
+                    let solo = rt::run_sim(plan.seed, plan.net_seed, plan.knobs.to_knobs(), || run_udp_system(plan, &one));
+                    sim_ns += solo.sim_ns;
+                    polls += solo.polls;
+                    ev_count += solo.world.ev_count;
+                    panics.extend(solo.panics.clone());
+                    extra_cases.push(solo.poll_hash ^ plan.seed ^ ((ix as u64) << 8) ^ tgt as u64 ^ 0x5e55);
+                    sessions_alone += 1;
+                    let s = app_summary(&up, &solo.result.obs, ix);
+                    let only = |x: &(Vec<((usize, u32, usize), usize)>, Vec<(usize, u32, u8, usize)>, usize)| (x.0.iter().filter(|d| d.0.0 == tgt).cloned().collect::<Vec<_>>(), x.1.iter().filter(|r| r.0 == tgt).cloned().collect::<Vec<_>>());
+                    let (sa, st) = (only(&s), only(&t));
+                    if sa != st {
+                        let first = sa.0.iter().zip(st.0.iter()).find(|(x, y)| x != y).map(|(x, y)| format!("datagram {:?}: alone delivered {} times, with the application's other sessions {}", x.0, x.1, y.1)).unwrap_or_else(|| format!("replies alone {} / with the other sessions {}", sa.1.len(), st.1.len()));
+                        v.push(Violation::new("C09", format!("C09/udp-session-depends-on-sibling-session/{cell}"), format!("application {ix}, session to target {tgt}: {first}")));
+                    }
+                }
+            }
             if a != t {
                 let what = if a.0 != t.0 { "datagrams" } else if a.1 != t.1 { "replies" } else { "stray-datagrams" };
                 let first = a.0.iter().zip(t.0.iter()).find(|(x, y)| x != y).map(|(x, y)| format!("datagram {:?}: alone delivered {} times, together {}", x.0, x.1, y.1)).unwrap_or_else(|| format!("replies alone {} / together {}, undecodable or foreign datagrams alone {} / together {}", a.1.len(), t.1.len(), a.2, t.2));
@@ -748,6 +781,7 @@ pub fn execute_c09_udp(plan: &Plan) -> Outcome {
     let got: usize = all.result.obs.target_recv.iter().map(|s| s.len()).sum();
     let mut probes = BTreeMap::new();
     probes.insert("udp_sessions_compared".to_owned(), up.apps.len() as u64);
+    probes.insert("udp_single_target_sessions_compared".to_owned(), sessions_alone);
     Outcome {
         violations: v,
         ev_hash: all.world.ev_hash,
@@ -760,7 +794,7 @@ pub fn execute_c09_udp(plan: &Plan) -> Outcome {
         case_hash: all.poll_hash ^ plan.seed.wrapping_mul(0x9E3779B97F4A7C15),
         probes,
         panics,
-        extra_evaluations: up.apps.len() as u64,
+        extra_evaluations: up.apps.len() as u64 + sessions_alone,
         extra_cases,
     }
 }
